@@ -38,7 +38,7 @@ TEXT = {
         "technique": "Rocq theorems over a Gallina model + differential correspondence + property oracle",
     },
     "C14": {
-        "text": 'Theorems quantified over every message state (hence every point of every operation sequence): the bits of the packed bitmap, continuation bits aside, are exactly the ids GetFields reports; JSON is built from the same set and succeeds iff Pack does; Pack/JSON do not change values or the set; UnsetField removes the id and resets the whole nested state. The model of all operations is compared with the library after every step of random and exhaustive short histories; the oracle compares the observers on the library and checks that no stale data resurfaces.',
+        "text": 'Theorems quantified over every message state (hence every point of every operation sequence): the bits of the packed bitmap, continuation bits aside, are exactly the ids GetFields reports; JSON is built from the same set and succeeds iff Pack does; Pack/JSON do not change values or the set; UnsetField removes the id and resets the whole nested state. The model of all operations is compared with the library after every step of random and exhaustive short histories; the oracle keeps a reference set (written since creation or the last Unpack, minus unset) and checks that nothing that was unset, replaced by an Unpack, or decoded by a failed Unpack ever comes back (this found and led to the repair of F28 and F30).',
         "design_ref": "DESIGN.md section 6 C14",
         "note": 'Trusted: Coq kernel, hand-written model (Model/Message.v, Model/Json.v, Model/MessageOps.v) validated by correspondence on every run, extraction/driver, Go harness and property oracle.',
         "technique": "Rocq theorems over a Gallina model + differential correspondence + property oracle",
@@ -50,7 +50,7 @@ TEXT = {
         "technique": "Rocq theorems over a Gallina model + differential correspondence + property oracle",
     },
     "C01": {
-        "text": 'Round trip (same state, exact consumption with arbitrary trailing bytes, arbitrary prior state, identical re-pack) is a theorem for every primitive field over all encodings, the 43 prefixers and paddings; composites of all four modes and whole messages are covered by the recursive model pack_f/unpack_f/m_pack/m_unpack, which is compared with the library on generated specs nested to depth 3 and whose general round-trip theorem is stated but not yet proved (partial).',
+        "text": "Round trip is a theorem at every level of the model: for every primitive field (all encodings, the 43 prefixers, paddings); by induction over the specification for every nested field specification whose composites are tagged (TLV / BER), positional or bitmapped - same content, exact consumption with arbitrary trailing bytes, arbitrary prior state of the object, identical re-pack; and for whole messages with an auto-expanding bitmap of any number of blocks (same MTI, bitmap, populated set and content; identical re-pack). The five shipped specifications, regenerated from the library's spec objects on every run, are proved coherent by a sound decision procedure, so the theorems apply to them. Fixed message bitmaps and track fields are covered by the correspondence and the oracle only.",
         "design_ref": "DESIGN.md section 6 C01",
         "note": 'Trusted: Coq kernel, hand-written model (Model/Field.v, Model/Message.v) validated by correspondence on every run, extraction/driver, Go harness incl. the spec/value generators and the property oracle.',
         "technique": "Rocq theorems over a Gallina model + differential correspondence + property oracle",
@@ -62,7 +62,7 @@ TEXT = {
         "technique": "Rocq theorems over a Gallina model + differential correspondence + property oracle",
     },
     "C03": {
-        "text": 'For every primitive field the packed bytes are proved to be prefix (exact width, alphabet, decoding to the padded unit count) followed by the encoded padded value, and such bytes unpack to the value; composites/messages are compared on every generated case with an independent reference encoder written from the property text, in both directions.',
+        "text": "The layout is a theorem for every primitive field (prefix of exact width and alphabet announcing the padded unit count, then the encoded padded value), for every tagged or positional composite (prefix, then exactly the set subfields in the spec's sort order, each preceded by its encoded tag when tags travel) and for every message with an auto-expanding bitmap (MTI, bitmap of k blocks whose first bit is set iff another block follows and whose other bits are exactly the populated elements, then the populated elements in strictly ascending order); conversely such bytes unpack to the values (C01). Bitmapped composites and fixed message bitmaps are compared on every generated case with an independent reference encoder written from the property text.",
         "design_ref": "DESIGN.md section 6 C03",
         "note": 'Trusted: Coq kernel, hand-written model (Model/Field.v, Model/Message.v) validated by correspondence on every run, extraction/driver, Go harness incl. the spec/value generators and the property oracle. harness/reflayout.go is the reference codec for composites and messages.',
         "technique": "Rocq theorems over a Gallina model + differential correspondence + property oracle",
@@ -86,7 +86,7 @@ TEXT = {
         "technique": "Rocq theorems over a Gallina model + differential correspondence + property oracle",
     },
     "C10": {
-        "text": 'Proved for primitive fields (result and state independent of prior state); composites and messages: the model keeps stale sub-states exactly as the library does, is compared with it on histories, and the oracle compares used against fresh objects (value, re-pack, JSON) on every generated history (partial).',
+        "text": 'Proved for primitive fields, for every composite field (any nesting, all modes) and for whole messages: the outcome of Unpack does not depend on what the object held, and after a successful Unpack neither does the complete state of the object (hence values, nested subfields, re-packed bytes, JSON), for objects in a clean state (every subfield / element that is not set is as new; the element at which the last Unpack failed excepted). Clean is proved to hold for new objects and to be kept by Unpack (whatever its outcome) and UnsetField; for the other writers it is checked by the correspondence on histories. This rests on the repairs F12, F27, F28, F29, F30, all found by the checks. Track fields: model and search.',
         "design_ref": "DESIGN.md section 6 C10",
         "note": 'Trusted: Coq kernel, hand-written model (Model/Field.v, Model/Message.v) validated by correspondence on every run, extraction/driver, Go harness incl. the spec/value generators and the property oracle.',
         "technique": "Rocq theorems over a Gallina model + differential correspondence + property oracle",
